@@ -265,6 +265,10 @@ func binaryRunOnce(sp Spec, bin string) (o *outcome, portClash bool) {
 	select {
 	case <-exited:
 	case <-time.After(time.Until(t0.Add(bound))):
+	}
+	select {
+	case <-exited: // looked at alone: both cases above may have been ready
+	default:
 		late := "not within 6 s more"
 		select {
 		case <-exited:
